@@ -863,3 +863,51 @@ func ZZC06Lagging() {
 
 // natively the follower has its own idle Raft and sees no entry but those delivered here
 func natively() bool { return !rt.Symbolic() }
+
+// ZZC10ConcurrentQueries: queries only take read locks, so two of them run at the same time.
+// Two such activities must not write a common memory cell without a common exclusive lock
+// (a shared hasher, a shared scratch buffer, an unsynchronised cache).
+func ZZC10ConcurrentQueries() {
+	g := zzNewGroup(1)
+	n := g.nodes[0]
+	for k := 0; k < 3; k++ {
+		g.commit(byte(0x10+k), 1)
+	}
+	q := []func(){
+		func() { n.QueryDigestMembership(g.digs[0]) },
+		func() { n.QueryDigestMembershipConsistency(g.digs[1], 2) },
+		func() { n.QueryConsistency(0, 2) },
+		func() { n.QueryDigestMembershipConsistency(g.digs[0], 1) },
+	}
+	a := rt.Choose("first-query", len(q))
+	b := rt.Choose("second-query", len(q))
+	rt.SharedWrites(q[a], q[b], "concurrent-queries")
+}
+
+// ZZC10ConcurrentQueriesRace: native witness for a finding of ZZC10ConcurrentQueries (meaningful in a -race build).
+func ZZC10ConcurrentQueriesRace() {
+	g := zzNewGroup(1)
+	n := g.nodes[0]
+	for k := 0; k < 3; k++ {
+		g.commit(byte(0x10+k), 1)
+	}
+	done := make(chan struct{})
+	for w := 0; w < 4; w++ {
+		go func(w int) {
+			defer func() { recover(); done <- struct{}{} }()
+			for i := 0; i < 300; i++ {
+				switch (w + i) % 3 {
+				case 0:
+					n.QueryDigestMembership(g.digs[i%3])
+				case 1:
+					n.QueryDigestMembershipConsistency(g.digs[i%3], 2)
+				case 2:
+					n.QueryConsistency(0, 2)
+				}
+			}
+		}(w)
+	}
+	for w := 0; w < 4; w++ {
+		<-done
+	}
+}
